@@ -238,8 +238,18 @@ func (m *Machine) visitInstr(fr *frame, instr ssa.Instruction) continuation {
 		*addr = zero(mustDeref(instr.Type()))
 
 	case *ssa.MakeSlice:
-		n := m.concInt(fr.get(instr.Cap), "make cap")
-		l := m.concInt(fr.get(instr.Len), "make len")
+		lenV, capV := fr.get(instr.Len), fr.get(instr.Cap)
+		if si, ok := lenV.(symInt); ok {
+			lenV = m.symbolicMakeLen(si)
+			if cs, ok := capV.(symInt); ok && cs.t == si.t {
+				capV = lenV
+			}
+		}
+		if si, ok := capV.(symInt); ok {
+			capV = m.symbolicMakeLen(si)
+		}
+		n := m.concInt(capV, "make cap")
+		l := m.concInt(lenV, "make len")
 		if l < 0 || n < l {
 			panic(targetPanic{v: "runtime error: makeslice: len out of range"})
 		}
@@ -1450,4 +1460,45 @@ func (m *Machine) oobTerm(si symInt, n int) *Term {
 		return m.tt.False()
 	}
 	return m.tt.App("bvuge", sortBool, si.t, m.tt.BVLit(uint64(n), bits))
+}
+
+// symbolicMakeLen handles make([]T, n) with a symbolic n (a count taken from
+// untrusted input): a negative n is a panic path; an n above the harness's
+// allocation limit (param allocLimit, default 65536 elements) is recorded as
+// an "allocation out of proportion to the input" violation candidate; the
+// path then continues with n <= maxSymLen (param, default 3), one path per
+// value.
+func (m *Machine) symbolicMakeLen(si symInt) value {
+	bits, signed := kindBits(si.kind)
+	if signed {
+		if m.branch(m.tt.App("bvslt", sortBool, si.t, m.tt.BVLit(0, bits))) {
+			panic(targetPanic{v: "runtime error: makeslice: len out of range"})
+		}
+	}
+	limit := m.h.Params["allocLimit"]
+	if limit == 0 {
+		limit = 1 << 16
+	}
+	maxSym := m.h.Params["maxSymLen"]
+	if maxSym == 0 {
+		maxSym = 3
+	}
+	if len(m.decisions) >= len(m.prefix) {
+		big := m.tt.App("bvugt", sortBool, si.t, m.tt.BVLit(uint64(limit), bits))
+		m.solver.Push()
+		m.solver.Assert(big)
+		moderate := m.tt.App("bvule", sortBool, si.t, m.tt.BVLit(uint64(limit)*16, bits))
+		r := m.solver.CheckWith(moderate)
+		if r == Sat {
+			m.solver.Assert(moderate)
+		}
+		if r = m.solver.Check(); r == Sat {
+			m.recordViolation("allocations stay in proportion to the input", "assert",
+				fmt.Sprintf("make() with a length taken from the input can exceed %d elements", limit), true)
+		}
+		m.solver.Pop()
+	}
+	small := m.tt.App("bvule", sortBool, si.t, m.tt.BVLit(uint64(maxSym), bits))
+	m.assume(symBool{small})
+	return intOfKind(si.kind, uint64(m.concretize(si, "make length")))
 }
